@@ -618,6 +618,56 @@ class TotpThreads(Harness):
         return tuple((k, st[k].generate(59).token) for k in sorted(st))
 
 
+class ScramThreads(Harness):
+    """after initialisation, concurrent hash() / verify() calls on the shared scram hasher with DIFFERENT passwords are
+    independent: saslprep() and every function / method of the scram handler module are instrumented, so scratch
+    state kept between two calls (a module-level table one call edits while another reads it) gets a schedule point"""
+
+    name = "scram_threads"
+    PWS = {"ltr": "pä", "rtl": "\u05d0\u05d1", "ascii": "pl"}
+
+    def __init__(self, ops):
+        self.ops = ops
+
+    def codes(self):
+        import types
+
+        import passlib.handlers.scram as S
+        import passlib.utils as U
+
+        cs = [U.saslprep]
+        cs += [v for v in vars(S).values() if isinstance(v, types.FunctionType) and v.__module__ == S.__name__]
+        for v in vars(S.scram).values():
+            f = getattr(v, "__func__", v)
+            if isinstance(f, types.FunctionType):
+                cs.append(f)
+        return cs
+
+    def fresh(self):
+        from passlib.hash import scram
+
+        H = scram.using(rounds=1, salt=b"saltsalt", algs="sha-1")
+        known = {k: H.hash(p) for k, p in self.PWS.items()}  # (initialised: tables built, digests looked up)
+        return {"H": H, "known": known}
+
+    def body(self, st, op):
+        kind, which = op.split(":")
+        H, pw = st["H"], self.PWS[which]
+        if kind == "hash":
+            return lambda: H.hash(pw)
+        if kind == "verify":
+            h = st["known"][which]
+            return lambda: H.verify(pw, h)
+        if kind == "prep":
+            from passlib.utils import saslprep
+
+            return lambda: saslprep(pw)
+        raise KeyError(op)
+
+    def post(self, st):
+        return tuple(sorted((k, st["H"].hash(p)) for k, p in self.PWS.items()))
+
+
 class ContextRecords(Harness):
     name = "context_records"
 
@@ -919,6 +969,8 @@ def make_harness(spec):
         return RegistrySameName(ops)
     if kind == "totp_threads":
         return TotpThreads(ops)
+    if kind == "scram_threads":
+        return ScramThreads(ops)
     if kind == "context_records":
         return ContextRecords(ops)
     if kind == "post_init":
@@ -1109,6 +1161,10 @@ def harness_specs(quick):
     add("registry_same_name", ("get:django_bcrypt", "get:django_bcrypt"), 1)
     add("totp_threads", ("gen:a:59", "gen:b:1111111109"), 1)
     add("totp_threads", ("gen:a:1234567890", "match:b:2000000000"), 1)
+    add("scram_threads", ("prep:rtl", "prep:ltr"), 1 if quick else 2)
+    add("scram_threads", ("hash:rtl", "verify:ltr"), 1)
+    if not quick:
+        add("scram_threads", ("verify:ascii", "hash:rtl"), 1)
     add("registry_import_direct", ("import", "get:django_salted_sha1"), 1)
     add("registry_import_direct", ("import", "attr:django_pbkdf2_sha256"), 1)
     add("context_records", ("verify_admin", "needs_update_admin"), b2)
